@@ -382,7 +382,7 @@ func (w *World) Project(ctx sdk.Context) (*State, error) {
 			it.Close()
 			return nil, fmt.Errorf("unprojectable provider record %x (%v)", it.Key(), err)
 		}
-		s.Prov[n] = M{"attrs": attrMap(p.Attributes)}
+		s.Prov[n] = M{"attrs": attrMap(p.Attributes), "up": p.Owner != strings.ToLower(p.Owner)}
 	}
 	it.Close()
 
